@@ -146,6 +146,8 @@ pub mod prelude {
     pub fn dbg_m_L(a: &L, f: &mut fmt::Formatter<'_>) -> fmt::Result { write!(f, "M<{}>", a.0) }
     pub fn dbg_m_S(a: &S, f: &mut fmt::Formatter<'_>) -> fmt::Result { f.debug_list().entry(&a.0.len()).entry(&a.0).finish() }
     pub fn dbg_m_F(a: &F, f: &mut fmt::Formatter<'_>) -> fmt::Result { f.write_str("flt") }
+    pub struct DbgM<'a, T>(pub &'a T, pub fn(&T, &mut fmt::Formatter<'_>) -> fmt::Result);
+    impl<'a, T> fmt::Debug for DbgM<'a, T> { fn fmt(&self, f: &mut fmt::Formatter<'_>) -> fmt::Result { (self.1)(self.0, f) } }
     pub fn hash_m_L<H: Hasher>(a: &L, h: &mut H) { h.write_u16(100 + a.0 as u16); }
     pub fn hash_m_S<H: Hasher>(a: &S, h: &mut H) { h.write_u32(a.0.len() as u32); h.write_u8(7); }
     pub fn hash_m_F<H: Hasher>(a: &F, h: &mut H) { h.write_u32(a.0.to_bits()); }
@@ -169,6 +171,10 @@ def leaf_table_code():
     for i in 0..{n} {{ for j in 0..{n} {{ let a = <{ty} as Leaf>::d(i); let b = <{ty} as Leaf>::d(j);
         println!("[\\"rel\\",\\"{ty}\\",{{}},{{}},{{}},\\"{{}}\\",\\"{{}}\\"]", i, j, PartialEq::ne(&a, &b), {cmp_e}, {pcmp_e});
     }} }}''')
+        if "Debug" in tr:
+            out.append(f'''
+    for i in 0..{n} {{ let a = <{ty} as Leaf>::d(i);
+        println!("[\\"dbgv\\",\\"{ty}\\",{{}},{{}},{{}}]", i, jstr(&format!("{{:?}}", a)), jstr(&format!("{{:#?}}", a))); }}''')
         if mid is None:
             if "Hash" in tr:
                 out.append(f'''
@@ -193,6 +199,9 @@ def leaf_table_code():
         for j in 0..{n} {{ let mut x = <{ty} as Leaf>::d(i); let y = <{ty} as Leaf>::d(j); Clone::clone_from(&mut x, &y);
             println!("[\\"clonef\\",\\"{ty}\\",{{}},{{}},{{}}]", i, j, x.id()); }}
     }}''')
+        out.append(f'''
+    for i in 0..{n} {{ let a = {ty}::d(i); let w = DbgM(&a, dbg_m_{ty});
+        println!("[\\"methd\\",{mid},{{}},{{}},{{}}]", i, jstr(&format!("{{:?}}", w)), jstr(&format!("{{:#?}}", w))); }}''')
         out.append(f'''
     for i in 0..{n} {{ let a = {ty}::d(i); let mut r = Rec::default(); hash_m_{ty}(&a, &mut r);
         println!("[\\"methh\\",\\"hash\\",{mid},{{}},{{}}]", i, js(&r.0)); }}''')
@@ -270,6 +279,22 @@ class TypeDef:
         out += self.extra_items
         return "\n".join(out)
 
+    def render_plain(self):
+        """The bare definition (no attributes), for #[derive] twins."""
+        def fs(v):
+            if v.shape == "named":
+                return ", ".join("pub %s: %s" % (f.name, f.ty) for f in v.fields)
+            return ", ".join("pub %s" % f.ty for f in v.fields)
+        if self.kind == "struct":
+            v = self.variants[0]
+            return {"unit": "pub struct %s;" % self.name, "tuple": "pub struct %s(%s);" % (self.name, fs(v)),
+                    "named": "pub struct %s { %s }" % (self.name, fs(v))}[v.shape]
+        vs = []
+        for v in self.variants:
+            f = fs(v).replace("pub ", "")
+            vs.append({"unit": v.name, "tuple": "%s(%s)" % (v.name, f), "named": "%s { %s }" % (v.name, f)}[v.shape])
+        return "pub enum %s { %s }" % (self.name, ", ".join(vs))
+
     def value_expr(self, k, ids):
         v = self.variants[k]
         args = ["<%s as Leaf>::d(%d)" % (f.ty, i) for f, i in zip(v.fields, ids)]
@@ -288,7 +313,7 @@ class TypeDef:
                 d[key] = f.req.get(t, {})
             return d
         return {**self.extra_json, "kind": self.kind, "name": self.name,
-                "variants": [{"name": v.name, "shape": v.shape, "disc": v.disc,
+                "variants": [{**getattr(v, "extra_json", {}), "name": v.name, "shape": v.shape, "disc": v.disc,
                               "fields": [fj(f) for f in v.fields]} for v in self.variants]}
 
 
